@@ -103,7 +103,11 @@ DiffName == IF ps.bad # ps2.bad THEN "bad" ELSE IF ps.w # ps2.w THEN "w" ELSE IF
 Differs == "monitor state after the step differs from the recorded events (first differing field: " \o DiffName \o ")"
 
 \* a recorded API event: through the monitor function into ps2
-Rec(s) == ps2' = s /\ l' = l + 1 /\ UNCHANGED <<vars, drift, live, sseq>>
+\* (`bad` only grows and the two records must agree at the end of the step, so a condition flagged
+\* by a recorded event that the spec's step did not flag is a drift at exactly that event)
+Rec(s) == IF s.bad \subseteq ps.bad
+          THEN ps2' = s /\ l' = l + 1 /\ UNCHANGED <<vars, drift, live, sseq>>
+          ELSE Drift("the monitor flags this recorded event, the spec's step flags nothing")
 
 \* the result the spec computed for a returned wait: a function of its last predicate outcome
 ResOf(last) == IF last = "t" THEN "ok" ELSE IF last = "e" THEN "perr" ELSE "canceled"
